@@ -272,6 +272,9 @@ func (p *polling) write(data types.BufferInterface, options *packet.Options) {
 		p.OnError("polling write error", nil)
 		return
 	}
+	if verifhook.Enabled {
+		verifhook.Point("polling.write.requestTaken", p, ctx)
+	}
 	p.Proto().(Polling).DoWrite(ctx, data, options, func(err error) {
 		if err != nil {
 			p.OnError("polling write error", err)
